@@ -37,7 +37,8 @@ impl FixtureDatabase {
         debug!("Word at cursor: {:?}", word_at_cursor);
 
         // Check if we're inside a fixture definition with the same name (self-referencing)
-        let current_fixture_def = self.get_fixture_definition_at_line(file_path, target_line);
+        let current_fixture_def =
+            self.get_enclosing_definition_named(file_path, target_line, &word_at_cursor);
 
         // First, check if this word matches any fixture usage on this line
         if let Some(usages) = self.usages.get(file_path) {
@@ -53,16 +54,12 @@ impl FixtureDatabase {
 
                         // If we're in a fixture definition with the same name, skip it
                         if let Some(ref current_def) = current_fixture_def {
-                            if current_def.name == word_at_cursor {
-                                info!(
-                                    "Self-referencing fixture detected, finding parent definition"
-                                );
-                                return self.find_closest_definition_excluding(
-                                    file_path,
-                                    &usage.name,
-                                    Some(current_def),
-                                );
-                            }
+                            info!("Self-referencing fixture detected, finding parent definition");
+                            return self.find_closest_definition_excluding(
+                                file_path,
+                                &usage.name,
+                                Some(current_def),
+                            );
                         }
 
                         return self.find_closest_definition(file_path, &usage.name);
@@ -75,20 +72,20 @@ impl FixtureDatabase {
         None
     }
 
-    /// Get the fixture definition at a specific line (if the line is a fixture definition)
-    fn get_fixture_definition_at_line(
+    /// The fixture definition named `name` whose function spans `line` (its signature
+    /// included, also when it is wrapped over several lines): a usage of `name` there is the
+    /// fixture requesting the fixture it overrides.
+    pub(crate) fn get_enclosing_definition_named(
         &self,
         file_path: &Path,
         line: usize,
+        name: &str,
     ) -> Option<FixtureDefinition> {
-        for entry in self.definitions.iter() {
-            for def in entry.value().iter() {
-                if def.file_path == file_path && def.line == line {
-                    return Some(def.clone());
-                }
-            }
-        }
-        None
+        let definitions = self.definitions.get(name)?;
+        definitions
+            .iter()
+            .find(|def| def.file_path == file_path && def.line <= line && line <= def.end_line)
+            .cloned()
     }
 
     /// Find fixture definition at a given position, checking both usages and definitions.
@@ -406,22 +403,15 @@ impl FixtureDatabase {
         };
 
         for (file_path, usage) in usages_for_fixture.iter() {
-            let fixture_def_at_line = self.get_fixture_definition_at_line(file_path, usage.line);
+            let enclosing_def =
+                self.get_enclosing_definition_named(file_path, usage.line, &usage.name);
 
-            let resolved_def = if let Some(ref current_def) = fixture_def_at_line {
-                if current_def.name == usage.name {
-                    debug!(
-                        "Usage at {:?}:{} is self-referencing, excluding definition at line {}",
-                        file_path, usage.line, current_def.line
-                    );
-                    self.find_closest_definition_excluding(
-                        file_path,
-                        &usage.name,
-                        Some(current_def),
-                    )
-                } else {
-                    self.find_closest_definition(file_path, &usage.name)
-                }
+            let resolved_def = if let Some(ref current_def) = enclosing_def {
+                debug!(
+                    "Usage at {:?}:{} is self-referencing, excluding definition at line {}",
+                    file_path, usage.line, current_def.line
+                );
+                self.find_closest_definition_excluding(file_path, &usage.name, Some(current_def))
             } else {
                 self.find_closest_definition(file_path, &usage.name)
             };
